@@ -168,6 +168,7 @@ def gen_cases(rng, tier):
                  max_depth=rng.choice([1, 2, 2, 3] if tier == "quick" else [2, 3, 3]),
                  hostile=0.15, inner_same_cls=rng.choice([0.0, 0.3, 0.6]))
         g.p_csub = rng.choice([0.0, 0.15, 0.3])     # sub-queries inside HAVING / GROUP BY / ORDER BY / SET values
+        g.p_nested_setop = rng.choice([0.0, 0.2])   # set operations as operands of set operations
         spec = g.any()
         out.append({"spec": spec, "relabel": None, "kw": None})
         out.append({"spec": spec, "relabel": rng.choice(CLS_NAMES), "kw": None})
@@ -299,7 +300,9 @@ def witness_pool():
 
 
 # members of witness_pool() that together reproduce every open finding (written by --write-findings)
-WITNESS_KEYS = [
+# pool members that reproduced the findings repaired in fix wave 2 (1270518, 07d9040, 1518abd, 76524c2, 3ab11e6, d20983c, 97eddd6):
+# they stay in the corpus, render with the outer convention now, and any regression is an unlisted signature = VIOLATION
+REGRESSION_KEYS = [
     'fn-gb:OracleQuery:PostgreSQLQuery',
     'kw-fn',
     'fn-crit:PostgreSQLQuery:ClickHouseQuery',
@@ -421,6 +424,10 @@ WITNESS_KEYS = [
     'qa-set:SnowflakeQuery:PostgreSQLQuery',
 ]
 
+# members of witness_pool() that together reproduce every OPEN finding (written by --write-findings)
+WITNESS_KEYS = [
+]
+
 
 def corpus():
     out = []
@@ -433,6 +440,7 @@ def corpus():
             out.append({"spec": W[name], "relabel": c, "kw": None, "name": name + "@" + c})
     pool = witness_pool()
     out += [pool[k] for k in WITNESS_KEYS]
+    out += [pool[k] for k in REGRESSION_KEYS if k not in WITNESS_KEYS]
     # GROUP BY alias use must follow the OUTER class (Oracle / MSSQL group by expressions) in every inherited position
     for o in ("OracleQuery", "MSSQLQuery"):
         for i in ("Query", "MySQLQuery", "PostgreSQLQuery"):
@@ -867,6 +875,18 @@ def devendor(text, kind):
             starts = i == 0 or t[i - 1] == ("punct", "(")
             if before in SETOPS or before == "ALL" or (after in SETOPS and starts):
                 drop[i] = drop[j] = True
+    # a set operation nested as an operand: "((..) UNION (..))" when operands are parenthesised, else the derived table
+    # "SELECT * FROM (.. UNION ..)" (ClickHouse, SQLite)
+    for i, j in match.items():
+        before = U[i - 1] if i > 0 else None
+        after = U[j + 1] if j + 1 < n else None
+        nxt_is_end = j + 1 >= n or t[j + 1] == ("punct", ")") or after in SETOPS or after in ("ORDER", "LIMIT", "OFFSET", "FETCH")
+        if (before in SETOPS or before == "ALL") and i + 1 < n and t[i + 1] == ("punct", "(") and nxt_is_end:
+            drop[i] = drop[j] = True
+        if i >= 3 and U[i - 3] == "SELECT" and t[i - 2] == ("punct", "*") and U[i - 1] == "FROM" and nxt_is_end \
+                and i + 1 < n and (U[i + 1] in ("SELECT", "WITH") or t[i + 1] == ("punct", "(")) and i >= 4 and (U[i - 4] in SETOPS or U[i - 4] == "ALL"):
+            for k_ in (i - 3, i - 2, i - 1, i, j):
+                drop[k_] = True
     depth = 0
     i = 0
     while i < n:
@@ -1368,6 +1388,52 @@ def predicted_findings():
     return out
 
 
+FIX_LINES = {
+    "1270518": "a function call hands the statement's alias and literal conventions (secondary_quote_char, alias_quote_char, "
+               "as_keyword, groupby_alias) on to its arguments",
+    "07d9040": "the alias of a sub-query (and of a set operation used as a source) follows the outermost query class",
+    "1518abd": "a set operation takes all rendering defaults from its base query, so every operand uses one convention",
+    "76524c2": "ORDER BY of a set operation quotes a reference to a selected alias like the alias itself",
+    "3ab11e6": "GROUP BY hands groupby_alias on to its items",
+    "d20983c": "Oracle and MSSQL switch groupby_alias off in _set_kwargs_defaults, so the operands of a set operation inherit it",
+    "97eddd6": "the alias of a comparison is quoted like every other alias",
+    "29316c4": "MySQL LOAD DATA and Vertica COPY quote each part of a schema-qualified table name",
+    "e7a5678": "INSERT values are wrapped with the query class's value wrapper (SQLite booleans)",
+    "147dede": "the ClickHouse helper functions render a column argument with the statement's quote_char (classes with an "
+               "empty quote_char still get the hard-coded double quote: those signatures stay open)",
+    "f8ac2a6": "CREATE INDEX quotes an index or table name given as str",
+}
+
+
+def fixing_commit(sig):
+    """the pypika commit that repaired the deviation behind a (formerly open) signature; None = still open"""
+    _, o, i, kind, role = sig
+    if role in ("cte-name", "alias-qualifier"):
+        return None
+    if kind.startswith("vendor:"):
+        v = kind[7:]
+        if v in ("mysql-load", "vertica-copy"):
+            return "29316c4"
+        if role == "boolean-form:insert":
+            return "e7a5678"
+        if v == "clickhouse-functions":      # `quote_char or '"'`: classes with an empty quote_char still get the double quote
+            return "147dede" if o == "MySQLQuery" else None
+        return None
+    if role in ("query-alias", "setop-alias"):
+        return "07d9040"
+    if role == "criterion-alias":
+        return "97eddd6"
+    if role == "groupby-alias":
+        return {"funcarg": "1270518", "setop-top": "d20983c", "groupby": "3ab11e6"}[kind]
+    if role == "alias-reference":
+        return "76524c2" if o == "SnowflakeQuery" else "1270518"
+    if kind in ("funcarg", "funcarg-term"):
+        return "1270518"
+    if kind == "setop-top":
+        return "1518abd"
+    return None
+
+
 def corpus_signatures(cases):
     obs = {}
     for c in cases:
@@ -1382,39 +1448,58 @@ if __name__ == "__main__":
     if "--write-findings" in sys.argv:
         import os
         here = os.path.abspath(__file__)
-        predicted = {json.dumps(f["signature"]): f for f in predicted_findings()}
-        # 1. what the fixed part of the corpus (named witnesses, vendor cases) already reproduces
+        allp = {json.dumps(f["signature"]): f for f in predicted_findings()}
+        predicted = {k: f for k, f in allp.items() if fixing_commit(f["signature"]) is None}
+        # 1. what the fixed part of the corpus (named witnesses, regression pins, vendor cases) already reproduces
         WITNESS_KEYS[:] = []
         have = corpus_signatures(corpus())
-        # 2. greedy cover of the remaining predicted signatures by members of the pool
+        # 2. greedy cover of the remaining open signatures by members of the pool
         pool = witness_pool()
-        per = {k: set(corpus_signatures([c])) for k, c in pool.items()}
         want = set(predicted) - set(have)
         keys = []
-        while True:
-            best = max(sorted(per), key=lambda k: len(per[k] & want))
-            if not per[best] & want:
-                break
-            keys.append(best)
-            want -= per[best]
+        if want:
+            per = {k: set(corpus_signatures([c])) for k, c in pool.items()}
+            while True:
+                best = max(sorted(per), key=lambda k: len(per[k] & want))
+                if not per[best] & want:
+                    break
+                keys.append(best)
+                want -= per[best]
         WITNESS_KEYS[:] = keys
         obs = corpus_signatures(corpus())
         unexpected = sorted(set(obs) - set(predicted))
         out = []
         for k, f in predicted.items():
             if k in obs:
-                f = dict(f, id="C07-%03d" % (len(out) + 1), corpus_witness=obs[k][0])
-                out.append(f)
+                out.append(dict(f, id="C07-%03d" % (len(out) + 1), corpus_witness=obs[k][0]))
+        n_open = len(out)
+        # 3. repaired deviations: one entry per pypika commit
+        by_commit = {}
+        for k, f in allp.items():
+            c = fixing_commit(f["signature"])
+            if c is not None:
+                by_commit.setdefault(c, []).append(f)
+        for c in sorted(by_commit):
+            fs = by_commit[c]
+            if any(json.dumps(f["signature"]) in obs for f in fs):
+                print("  NOT REPAIRED after all:", c, [f["signature"] for f in fs if json.dumps(f["signature"]) in obs][:3])
+                continue
+            kinds = sorted({"%s/%s" % (f["signature"][3], f["signature"][4]) for f in fs})
+            out.append({"id": "C07-fixed-" + c, "property": "C07", "status": "fixed", "commit": c,
+                        "what": "%s (was: %s); %d signatures (%s) removed; their witnesses stay in the corpus as regression pins"
+                                % (FIX_LINES[c], fs[0]["what"], len(fs), ", ".join(kinds)),
+                        "line": "fixed: property=C07 %s %s" % (c, FIX_LINES[c])})
         path = os.path.join(os.path.dirname(os.path.dirname(os.path.dirname(here))), "findings.d", "C07.json")
         with open(path, "w") as f:
             json.dump(out, f, indent=1)
         src = open(here).read()
-        a = src.index("WITNESS_KEYS = [")
+        a = src.index("\nWITNESS_KEYS = [") + 1
         b = src.index("]\n", a) + 2
         body = "WITNESS_KEYS = [\n" + "".join("    %r,\n" % k for k in keys) + "]\n"
         open(here, "w").write(src[:a] + body + src[b:])
-        print("wrote", path, len(out), "findings;", len(keys), "pool witnesses; predicted but not reproduced (dropped):", len(predicted) - len(out))
+        print("wrote", path, n_open, "open findings,", len(out) - n_open, "fixed entries;", len(keys), "pool witnesses; open-predicted but not reproduced (dropped):",
+              len(predicted) - n_open)
         for k in sorted(set(predicted) - set(obs)):
             print("  dropped", k)
         for k in unexpected:
-            print("  UNEXPECTED (not predicted)", k, obs[k][:2])
+            print("  UNEXPECTED (not an open prediction)", k, obs[k][:2])
